@@ -80,6 +80,12 @@ def run(chk):
         stale = "".join("stale_%d = (%d,\n" % (i, i) for i in range(400))
         pre2 = [(r[:-6] + ".py", stale) for r, _ in files] + [("keep/readme.txt", "x")]
         cases.append(("%s_prelong" % base, "pre", files, {r: "g" for r, _ in files}, tuple(pre2), base))
+        # blank files (empty, white space only, comment only) anywhere in the glob order: the other files are unaffected
+        for bi, (brel, btext) in enumerate([("0_init%d.mamba" % k, ""), ("a/__init__.mamba", "   \n\n"), ("c/zz_last%d.mamba" % k, "# nothing here\n"), ("a/b/mid%d.mamba" % k, "\n")]):
+            if any(r == brel for r, _ in files):
+                continue
+            blank = files + [(brel, btext)]
+            cases.append(("%s_blank%d" % (base, bi), "extra", blank, {r: "g" for r, _ in blank}, (), base))
         # an unrelated file defining only fresh names
         extra = files + [("z/extra%d.mamba" % k, "class Fresh%d\ndef fresh%d(x: Int) -> Int => x\n" % (k, k))]
         cases.append(("%s_extra" % base, "extra", extra, {r: "g" for r, _ in extra}, (), base))
